@@ -455,6 +455,69 @@ def judge_scan(part, v, vname, cases, results):
                                                 "the private stack after the call returned" % (NEEDLE, which, d))))
 
 
+OP_RADIUS_MA_STACKSCAN = 10
+RADIUS_CODES = [1, 2, 3, 4, 5, 11, 12, 13, 40, 41, 42, 43, 44, 45, 0, 6, 10, 99, 255]
+
+
+def radius_scan_cases(seed):
+    """RADIUS Message-Authenticator calculation (HMAC-MD5 context is an automatic object of the function): every
+    packet code incl. unknown ones x request present/absent x authenticator-inside, on the private stack."""
+    rng = Rng(PROP, "radius-stackscan", seed)
+    out = []
+    for code in RADIUS_CODES:
+        for have_req in (0, 1):
+            for inside in (0, 1):
+                kl = rng.choice([1, 16, 40, 64, 65, 100])
+                key = bytes(rng.below(255) + 1 for _ in range(kl))
+                before = b"\x01\x07alice"
+                ma = b"\x50\x12" + bytes(16)
+                after = b"\x04\x06" + rng.bytes(4)
+                ln = 20 + len(before) + len(ma) + len(after)
+                pkt = bytes((code, rng.below(256))) + struct.pack(">H", ln) + rng.bytes(16) + before + ma + after
+                req = bytes((1, 7)) + struct.pack(">H", 20) + rng.bytes(16)
+                ip, op = pads(0, key)
+                needles = [ip[:NEEDLE], op[:NEEDLE]]
+                pay = (bytes((OP_RADIUS_MA_STACKSCAN, inside, have_req)) + struct.pack("<I", len(pkt)) + pkt +
+                       struct.pack("<I", 20 + len(before)) + struct.pack("<I", len(key)) + key +
+                       struct.pack("<I", len(req)) + req + bytes((len(needles),)) +
+                       b"".join(struct.pack("<I", len(x)) + x for x in needles))
+                out.append({"code": code, "have_req": have_req, "inside": inside, "kl": kl, "key": key.hex(),
+                            "payload_hex": pay.hex(), "payload": pay})
+    return out
+
+
+def judge_radius_scan(part, v, vname, cases, results):
+    cnt = part["counters"]
+    ename = "radius_pkt_attr_msg_authenticator_calc"
+    for t, obs in zip(cases, results):
+        pub = {k: t[k] for k in ("code", "have_req", "inside", "kl", "key", "payload_hex")}
+        pub["radius_scan"] = True
+        w = {"variant": vname, "build": v["spec"], "case": pub, "seed": common.seed()}
+        if isinstance(obs, common.Crash):
+            part["violations"].append((common.crash_key(obs, ename + ".stackscan"),
+                                       dict(w, observed="crash %s rc=%s" % (obs.kind, obs.returncode), report=obs.report[-2000:])))
+            continue
+        r = common.R(obs)
+        st = r.u8()
+        if st == 3:
+            continue
+        if st != 0:
+            part["violations"].append(("harness:%s:stackscan-status" % ename, dict(w, observed="status %d" % st)))
+            continue
+        rc = r.i32()
+        r.blob()
+        found = [r.i64(), r.i64()]
+        part["evaluations"] += 1
+        cls = "returned-0" if rc == 0 else "error-return"
+        cnt["radius_stack_scans"] = cnt.get("radius_stack_scans", 0) + 1
+        cnt["radius_stack_scans_" + cls] = cnt.get("radius_stack_scans_" + cls, 0) + 1
+        for which, d in zip(("ipad", "opad"), found):
+            if d >= 0:
+                part["violations"].append(("stack:%s:keyed-pad-left-on-stack:%s:%s" % (ename, which, cls),
+                                           dict(w, observed="rc=%d; %d-byte prefix of secret xor %s found %d bytes below the top of the "
+                                                "private stack after the call returned" % (rc, NEEDLE, which, d))))
+
+
 def worker(job):
     part = common.new_part()
     alg, tier = job["alg"], job["tier"]
@@ -472,6 +535,9 @@ def worker(job):
         if v["spec"].get("san") == "plain":
             sc = scan_cases(alg, job["slice"], job["seed"])
             judge_scan(part, v, vname, sc, common.run_cases(v["exe"], [t["payload"] for t in sc]))
+            if alg == 0 and job["slice"] == 0:
+                rc_ = radius_scan_cases(job["seed"])
+                judge_radius_scan(part, v, vname, rc_, common.run_cases(v["exe"], [t["payload"] for t in rc_]))
     part["counters"]["templates"] = len(tpls)
     return c04.compact(part)
 
@@ -521,7 +587,7 @@ def run(tier):
         if not report.extra.get("cases@" + vname):
             report.inconclusive.append("variant %s produced no judged case" % vname)
     for need in ("keyclass_k=0", "keyclass_k=B-1", "keyclass_k=B", "keyclass_k=B+1", "keyclass_2B<k<=3B",
-                 "images_compared", "stack_scans", "reuse_cases", "entry_point_agreements", "dispatch_gost512_avx",
+                 "images_compared", "stack_scans", "radius_stack_scans", "reuse_cases", "entry_point_agreements", "dispatch_gost512_avx",
                  "dispatch_sha1_shani", "dispatch_sha256_shani", "dispatch_sha1_sse", "dispatch_gost256_sse"):
         if not report.extra.get(need):
             report.inconclusive.append("monitor saw nothing: " + need)
@@ -540,6 +606,14 @@ def replay(path):
         print("replay: variant does not build:", e)
         return 2
     t = w["case"]
+    if t.get("radius_scan"):
+        pay = bytes.fromhex(t["payload_hex"])
+        part = common.new_part()
+        judge_radius_scan(part, {"spec": w["build"]}, w["variant"], [dict(t, payload=pay)], common.run_cases(exe, [pay]))
+        for k, ww in part["violations"]:
+            print(" %s: %s" % (k, ww.get("observed")))
+        print(" verdict: %s" % ("still failing" if part["violations"] else "not reproduced"))
+        return 1 if part["violations"] else 0
     if t.get("scan"):
         key, msg = bytes.fromhex(t["key"]), bytes.fromhex(t["msg"])
         ip, op = pads(t["alg"], key)
